@@ -417,17 +417,14 @@ class ImplicitFuncComp(ImplicitComponent):
         list
             Chunks in OpenMDAO jacobian order.
         """
-        inps = []
-        ordered_chunks = []
+        chunks = {}
         chunk_iter = iter(col_chunks)
-        for meta in self._apply_nonlinear_func._inputs.values():
-            if 'is_option' in meta:  # it's an option
-                pass  # skip it (don't include in jacobian)
-            elif 'resid' in meta:  # it's a state
-                ordered_chunks.append(next(chunk_iter))
-            else:
-                inps.append(next(chunk_iter))
-        return ordered_chunks + inps
+        for name, meta in self._apply_nonlinear_func._inputs.items():
+            if 'is_option' not in meta:  # options are not included in the jacobian
+                chunks[name] = next(chunk_iter)
+
+        # the states may appear in the function signature in a different order than the outputs
+        return [chunks[name] for name in chain(self._outputs, self._inputs)]
 
     def _reorder_cols(self, arr, coloring=None):
         """
